@@ -277,6 +277,22 @@ class C13(Check):
             for x in (None, 0, {}, [1]):
                 for ml, ms in flags[1:3]:
                     yield {"kind": "merge", "a": {k: x, "z": {k: x}}, "b": {"z": {k: [2]}, k: {}}, "ml": ml, "ms": ms}
+        # limits: nesting depth 17 / 64 with a special value at the bottom of the overriding tree, 300 keys, long
+        # strings, long lists and sets
+        def nest(depth, leaf):
+            t = leaf
+            for i in range(depth):
+                t = {"n": t, "side%d" % (i % 3): i}
+            return t
+        for depth in (2, 3, 16, 17, 64):
+            for leaf_a, leaf_b in ((1, None), ([1], None), ({"x": 1}, {"x": None}), (None, 0), ({1}, set()), ([1, 2], [2, 3]), ({}, 5)):
+                for ml, ms in flags[1:]:
+                    yield {"kind": "merge", "a": nest(depth, leaf_a), "b": nest(depth, leaf_b), "ml": ml, "ms": ms}
+        wide_a = {"k%d" % i: i for i in range(300)}
+        wide_b = {"k%d" % i: {"n": i} if i % 7 == 0 else None for i in range(299, 100, -1)}
+        yield {"kind": "merge", "a": wide_a, "b": wide_b, "ml": False, "ms": True}
+        yield {"kind": "merge", "a": {"s": "x" * 4096, "l": list(range(300)), "st": set(range(300))},
+               "b": {"s": "", "l": list(range(150, 450)), "st": set(range(200, 500))}, "ml": True, "ms": True}
         # histories on ONE composite: a source changes its answer (or starts / stops failing) between calls
         hmenu = [{"a": 1}, {"a": 2, "b": [1]}, {"b": [2]}, {}, {"c": {"d": 1}}, {"a": None}, {"a": 0, "b": []},
                  {"c": 5}, {"a": {"x": 1}}, {"b": {"y": 1}}]
